@@ -10,7 +10,7 @@
 (* Event:  [k, item (index into doc; Len(doc)+1 = document end; 0 = not    *)
 (*          attributable), cls, idx, last]                                 *)
 (***************************************************************************)
-EXTENDS Naturals, Integers, Sequences, FiniteSets, TLC, Json, IOUtils, Scope
+EXTENDS Naturals, Integers, Sequences, FiniteSets, TLC, Json, IOUtils, Scope, DocNs
 
 Rec == ndJsonDeserialize(IOEnv.TRACE)
 VARIABLES l, nbad
@@ -83,7 +83,7 @@ Verdict(r) ==
 
 TInit == l = 1 /\ nbad = 0
 TNext == /\ l <= Len(Rec)
-         /\ LET v == Verdict(Rec[l]) IN
+         /\ LET v == Verdict(WithNs(Rec[l])) IN
             IF v = "ok" THEN UNCHANGED nbad ELSE PrintT(<<"BAD", Rec[l].id, 0, v>>) /\ nbad' = nbad + 1
          /\ l' = l + 1
 TSpec == TInit /\ [][TNext]_vars
